@@ -1341,7 +1341,20 @@ private:
     if (!left.has_partitions() && !right.has_partitions()) {
       return (left.m_absval <= right.m_absval);
     } else if (!left.has_partitions() && right.has_partitions()) {
-      return (left.m_absval <= right.merge_product());
+      // The partitions of right cannot be merged: their join can be
+      // strictly larger than their union. The concretization of
+      // right is the intersection of its elements so left must be
+      // included in each of them.
+      using partition_t = typename value_partitioning_domain_t::partition_t;
+      NumDomain val(left.m_absval);
+      partition_t partition(interval_t::top(), std::move(val));
+      value_partitioning_domain_t left_val(boost::none, {partition});
+      for (auto const &right_val : right.m_product) {
+        if (!(left_val <= right_val)) {
+          return false;
+        }
+      }
+      return true;
     } else if (left.has_partitions() && !right.has_partitions()) {
       return (left.merge_product() <= right.m_absval);
     }
